@@ -9,8 +9,8 @@ Proof. destruct T; cbn; auto using Nat.eqb_refl. Qed.
 
 Lemma tab_eqb_eq : forall a b, tab_eqb a b = true -> a = b.
 Proof.
-  destruct a, b; cbn; intro H; try reflexivity; try discriminate.
-  apply Nat.eqb_eq in H. now subst.
+  destruct a, b; cbn; intro H; try reflexivity; try discriminate;
+    apply Nat.eqb_eq in H; now subst.
 Qed.
 
 Lemma ent_is_true : forall T k T' k' v, ent_is T k (T', k', v) = true -> T = T' /\ k = k'.
